@@ -446,6 +446,9 @@ impl MultiState {
                 // Make the clear operation also wipe out zombie lines
                 drawable.adjust_last_line_count(LineAdjust::Clear(self.zombie_lines_count));
                 self.zombie_lines_count = VisualLines::default();
+                // An explicit clear hands the rows over to whatever is printed next: do not keep
+                // a blank bottom-aligned region (the next draw sets the alignment again)
+                drawable.state().alignment = MultiProgressAlignment::Top;
                 drawable.clear()
             }
             None => Ok(()),
